@@ -269,6 +269,9 @@ def run(ctx):
         elif r_size < 0.115:
             n = int(rng.choice([16, 17, 20, 24]))
             ctx.bucket("wide_interferometer")
+        elif r_size < 0.123:
+            n = int(rng.choice([52, 56, 64]))            # more than 50 modes (three-digit column counts in the mesh)
+            ctx.bucket("very_wide_interferometer")
         u = make_unitary(rng, fam, n)
         circ = lw.Unitary(u)
         heralded = False
